@@ -18,6 +18,7 @@ RULE = ('(a) marker sets: all 65536 subsets of KNOWN_MARKERS in the thorough tie
         'x {sync, async, generator} x message/exception customisation; (c) the linter on generated sources; non-trivial = the marker set is not empty or an effect is attempted')
 
 KNOWN = ['global', 'import', 'input', 'io', 'network', 'nonlocal', 'print', 'random', 'read', 'socket', 'stderr', 'stdin', 'stdout', 'syscall', 'time', 'write']
+ALIASES = [('print', 'stdout'), ('socket', 'network'), ('input', 'stdin'), ('nonlocal', 'global')]      # CheckMarkers.aliases, in its order
 DOC = ['global', 'import', 'io', 'read', 'write', 'stdout', 'stderr', 'network', 'stdin', 'syscall', 'random', 'time']
 ALIAS = {'stdin': 'input', 'stdout': 'print', 'network': 'socket', 'global': 'nonlocal'}
 IO_CHILD = {'read', 'write', 'stdout', 'stderr', 'network', 'stdin', 'syscall'}
@@ -66,7 +67,11 @@ def table_part(ctx, fr, model_available):
         for j, (M, oi) in enumerate(zip(sets, im)):
             fr.evaluations += 1
             if M: fr.add_nontrivial({'markers': sorted(M)})
-            preds, lint = oi.split('/')
+            preds, lint, alias_bits = oi.split('/')
+            for (al, canon), bit in zip(ALIASES, alias_bits):
+                if (bit == '1') != spec_covers(M, canon):
+                    fr.violations.append({'scenario': {'family': 'marker-table', 'markers': M, 'marker': al}, 'impl': oi, 'signature': None,
+                                          'what': f'the linter decides covered={bit} for the marker {al} (another name of {canon}) under has({M}), the table requires {spec_covers(M, canon)}'})
             want_rt = {2: spec_covers(M, 'stdout'), 3: spec_covers(M, 'stderr'), 0: spec_covers(M, 'network')}
             for idx, w in want_rt.items():
                 if (preds[idx] == '1') != w:
